@@ -18,7 +18,7 @@
 
    Closed theorems; axioms = the classical real numbers of the standard library (Flocq). *)
 From Coq Require Import ZArith Reals QArith Qreals List Lia Lra Psatz.
-From Flocq Require Import Core Relative Plus_error.
+From Flocq Require Import Core Relative Plus_error BinarySingleNaN.
 From JLS Require Import StatsQ FloatTmap.
 Import ListNotations.
 Local Open Scope R_scope.
@@ -742,7 +742,7 @@ Proof.
   { unfold p0. rewrite Rabs_mult.
     assert (Rabs a0 * Rabs b0 <= 2 * M * (2 * M)) by (apply Rmult_le_compat; try apply Rabs_pos; assumption). lra. }
   assert (Hph : Rabs (ph - p0) <= spi M eps).
-  { unfold ph. rewrite Ep. fold ah bh.
+  { rewrite Ep.
     replace (ah * bh * (1 + dp) + hp - p0) with ((ah * bh - p0) * (1 + dp) + p0 * dp + hp) by ring.
     eapply Rle_trans; [apply Rabs_triang|]. eapply Rle_trans; [apply Rplus_le_compat_r, Rabs_triang|].
     rewrite !Rabs_mult. pose proof (Rabs_1p dp Dp).
@@ -757,4 +757,628 @@ Proof.
   { apply Rmult_le_compat; try apply Rabs_pos; assumption. }
   assert (Rabs (s + p0) * Rabs ds <= S' * u64) by (apply Rmult_le_compat; try apply Rabs_pos; assumption).
   lra.
+Qed.
+
+(* error added to s by one call, when at most N samples are added in total *)
+Definition sstep (M : R) (N : nat) : R :=
+  (1 + 2 * INR N * u64) * ((1 + u64) * spi M (INR N * cstep M) + 4 * u64 * INR N * (M * M)).
+
+Lemma spi_nonneg : forall M eps, 0 <= M -> 0 <= eps -> 0 <= spi M eps.
+Proof.
+  intros M eps HM He. unfold spi, sdelta. pose proof u64_pos. pose proof eta64_pos.
+  assert (0 <= eps * (1 + u64) + 2 * u64 * M) by nra.
+  assert (0 <= (eps * (1 + u64) + 2 * u64 * M) * (4 * M + (eps * (1 + u64) + 2 * u64 * M))) by (apply Rmult_le_pos; lra).
+  assert (0 <= M * M) by nra. nra.
+Qed.
+
+Lemma fp_s_invariant : forall (M : R) (N : nat) (xs : list R), 0 <= M -> (Z.of_nat N <= 2 ^ 52)%Z ->
+  Forall (fun x => fmt x /\ Rabs x <= M) xs -> (length xs <= N)%nat ->
+  Rabs (f_s (fp_stats_add_list xs) - rss xs) <= INR (length xs) * sstep M N.
+Proof.
+  intros M N xs HM HN. induction xs as [|x xs IH] using rev_ind; intros Hall Hlen.
+  - cbn. unfold rss, rsumsq. cbn. rewrite rmean_nil. replace (0 - (0 - 0 * (0 * 0))) with 0 by ring.
+    rewrite Rabs_R0. lra.
+  - pose proof Hall as Hall'. apply Forall_app in Hall. destruct Hall as [Hxs Hx]. inversion Hx as [|? ? [Fx Bx] _]. subst.
+    rewrite app_length in Hlen. cbn [length] in Hlen.
+    specialize (IH Hxs ltac:(lia)).
+    pose proof u64_pos as Hu. pose proof u64_lt as Hu1.
+    pose proof (cstep_nonneg M HM) as Hc0.
+    set (eps := INR N * cstep M).
+    assert (Heps : 0 <= eps) by (unfold eps; apply Rmult_le_pos; [apply pos_INR|exact Hc0]).
+    assert (Hbx : Forall (fun x => Rabs x <= M) xs) by (eapply Forall_impl; [|exact Hxs]; intros a [_ Ha]; exact Ha).
+    assert (Hbx' : Forall (fun x => Rabs x <= M) (xs ++ [x])) by (eapply Forall_impl; [|exact Hall']; intros a [_ Ha]; exact Ha).
+    (* mean errors before and after *)
+    assert (He : Rabs (f_mean (fp_stats_add_list xs) - rmean xs) <= eps).
+    { eapply Rle_trans; [apply (fp_mean_error0 M); [exact HM|exact Hxs|lia]|].
+      unfold eps. apply Rmult_le_compat_r; [exact Hc0|apply le_INR; lia]. }
+    assert (He' : Rabs (f_mean (fp_stats_add_list (xs ++ [x])) - rmean (xs ++ [x])) <= eps).
+    { eapply Rle_trans; [apply (fp_mean_error0 M); [exact HM|exact Hall'|rewrite app_length; cbn [length]; lia]|].
+      unfold eps. apply Rmult_le_compat_r; [exact Hc0|apply le_INR; rewrite app_length; cbn [length]; lia]. }
+    pose proof (rss_bound M (xs ++ [x]) HM Hbx') as HS.
+    rewrite rss_snoc in HS |- *.
+    rewrite app_length in HS |- *. cbn [length] in HS |- *. replace (length xs + 1)%nat with (S (length xs)) in HS |- * by lia.
+    rewrite fp_add_list_snoc in He' |- *. unfold fp_stats_add in He' |- *. cbn [f_mean f_s] in He' |- *.
+    eapply Rle_trans.
+    { apply (fp_s_step M eps (4 * INR (S (length xs)) * (M * M))); try assumption.
+      - apply fp_add_list_fmt.
+      - apply fmt_RN.
+      - apply fp_add_list_fmt_s.
+      - apply rmean_bound; assumption.
+      - apply rmean_bound; assumption. }
+    (* close the recurrence *)
+    set (k := INR (length xs)) in *. set (Pi := spi M eps) in *.
+    assert (HPi : 0 <= Pi) by (apply spi_nonneg; assumption).
+    assert (Hk0 : 0 <= k) by apply pos_INR.
+    assert (HkN : k + 1 <= INR N) by (unfold k; rewrite <- S_INR; apply le_INR; lia).
+    assert (Ht : 2 * INR N * u64 <= 1).
+    { rewrite INR_IZR_INZ, u64_val.
+      assert (IZR (Z.of_nat N) <= IZR (2 ^ 52)) by (apply IZR_le; exact HN).
+      apply Rmult_le_reg_r with (IZR (2 ^ 53)); [apply IZR_lt; reflexivity|].
+      rewrite Rmult_assoc, Rinv_l by (apply not_0_IZR; discriminate).
+      replace (IZR (2 ^ 53)) with (2 * IZR (2 ^ 52)) by (rewrite <- mult_IZR; reflexivity). lra. }
+    rewrite S_INR. fold k.
+    unfold sstep in *. fold eps Pi in IH |- *.
+    set (X := (1 + u64) * Pi + 4 * u64 * INR N * (M * M)) in *.
+    assert (HMM : 0 <= M * M) by nra.
+    assert (HX : 0 <= X).
+    { unfold X. assert (0 <= 4 * u64 * INR N * (M * M)); [|nra].
+      apply Rmult_le_pos; [|exact HMM]. apply Rmult_le_pos; [lra|apply pos_INR]. }
+    set (t := INR N * u64) in *.
+    assert (Ht0 : 0 <= t) by (unfold t; apply Rmult_le_pos; [apply pos_INR|lra]).
+    replace (2 * INR N * u64) with (2 * t) in * by (unfold t; ring).
+    assert (H1 : (1 + u64) * (Rabs (f_s (fp_stats_add_list xs) - rss xs) + Pi) <= (1 + u64) * (k * ((1 + 2 * t) * X) + Pi)).
+    { apply Rmult_le_compat_l; lra. }
+    (* u k D <= t D ;  4 u (k+1) M^2 <= 4 u N M^2 *)
+    assert (H2 : u64 * (k * ((1 + 2 * t) * X)) <= t * ((1 + 2 * t) * X)).
+    { replace (u64 * (k * ((1 + 2 * t) * X))) with (k * u64 * ((1 + 2 * t) * X)) by ring.
+      apply Rmult_le_compat_r; [apply Rmult_le_pos; lra|]. unfold t. apply Rmult_le_compat_r; lra. }
+    assert (H3 : u64 * (4 * (k + 1) * (M * M)) <= 4 * u64 * INR N * (M * M)).
+    { replace (u64 * (4 * (k + 1) * (M * M))) with (4 * u64 * (k + 1) * (M * M)) by ring.
+      apply Rmult_le_compat_r; [exact HMM|]. apply Rmult_le_compat_l; lra. }
+    assert (H4 : t * ((1 + 2 * t) * X) <= 2 * t * X).
+    { replace (t * ((1 + 2 * t) * X)) with (t * X * (1 + 2 * t)) by ring.
+      replace (2 * t * X) with (t * X * 2) by ring. apply Rmult_le_compat_l; [apply Rmult_le_pos; lra|lra]. }
+    unfold X in *. nra.
+Qed.
+
+(* forward error of s after n calls of jls_statistics_add; rssq = exact sum of squared deviations *)
+Theorem fp_s_error : forall (M : R) (xs : list R), 0 <= M ->
+  Forall (fun x => fmt x /\ Rabs x <= M) xs -> (Z.of_nat (length xs) <= 2 ^ 52)%Z ->
+  Rabs (f_s (fp_stats_add_list xs) - rssq xs) <= INR (length xs) * sstep M (length xs).
+Proof.
+  intros M xs HM Hall Hlen. rewrite <- rss_eq_rssq. apply fp_s_invariant; try assumption. lia.
+Qed.
+
+(* the constant, for n <= 2^32 samples and M >= 2^-511:  n * sstep M n <= (21 n + 14) n u M^2 *)
+Lemma sstep_simple : forall (M : R) (n : nat), bpow radix2 (-511) <= M -> (Z.of_nat n <= 2 ^ 32)%Z ->
+  INR n * sstep M n <= (21 * INR n + 14) * INR n * u64 * (M * M).
+Proof.
+  intros M n HM Hn.
+  pose proof u64_pos as Hu. pose proof u64_lt as Hu1. pose proof (bpow_gt_0 radix2 (-511)) as Hb.
+  destruct n as [|n']; [cbn [INR]; lra|]. set (n := S n') in *.
+  assert (HN1 : 1 <= INR n) by (unfold n; rewrite S_INR; pose proof (pos_INR n'); lra).
+  set (N := INR n) in *. set (t := N * u64).
+  assert (Ht : t <= / 1000000).
+  { unfold t, N. rewrite INR_IZR_INZ, u64_val.
+    assert (IZR (Z.of_nat n) <= IZR (2 ^ 32)) by (apply IZR_le; exact Hn).
+    apply Rle_trans with (IZR (2 ^ 32) * / IZR (2 ^ 53)).
+    - apply Rmult_le_compat_r; [apply Rlt_le, Rinv_0_lt_compat, IZR_lt; reflexivity|assumption].
+    - replace (IZR (2 ^ 53)) with (IZR (2 ^ 32) * IZR (2 ^ 21)) by (rewrite <- mult_IZR; reflexivity).
+      rewrite Rinv_mult, <- Rmult_assoc, Rinv_r, Rmult_1_l by (apply not_0_IZR; discriminate).
+      apply Rinv_le_contravar; [lra|]. apply IZR_le. lia. }
+  assert (Ht0 : u64 <= t) by (unfold t; nra).
+  assert (HM0 : 0 < M) by lra.
+  assert (HMM : 0 < M * M) by nra.
+  (* eta64 <= u M^2 *)
+  assert (Heta : eta64 <= u64 * (M * M)).
+  { unfold eta64, u64. change (-1075)%Z with (-53 + (-511 + -511))%Z. rewrite !bpow_plus.
+    apply Rmult_le_compat_l; [apply bpow_ge_0|]. apply Rmult_le_compat; try apply bpow_ge_0; assumption. }
+  assert (Hc : cstep M <= (2 + u64) * (2 + u64) * u64 * M).
+  { apply cstep_le. eapply Rle_trans; [|exact HM]. apply bpow_le. lia. }
+  pose proof (cstep_nonneg M ltac:(lra)) as Hc0.
+  set (eps := N * cstep M).
+  assert (Heps0 : 0 <= eps) by (unfold eps; nra).
+  assert (Heps : eps <= 401 / 100 * t * M).
+  { unfold eps. apply Rle_trans with (N * ((2 + u64) * (2 + u64) * u64 * M)); [apply Rmult_le_compat_l; lra|].
+    replace (N * ((2 + u64) * (2 + u64) * u64 * M)) with ((2 + u64) * (2 + u64) * (t * M)) by (unfold t; ring).
+    replace (401 / 100 * t * M) with (401 / 100 * (t * M)) by ring.
+    apply Rmult_le_compat_r; [unfold t; nra|nra]. }
+  set (D := sdelta M eps).
+  assert (HD0 : 0 <= D) by (unfold D, sdelta; nra).
+  assert (HD : D <= (402 / 100 * t + 2 * u64) * M).
+  { unfold D, sdelta.
+    assert (eps * (1 + u64) <= 401 / 100 * t * M * (1 + u64)) by (apply Rmult_le_compat_r; lra).
+    assert (0 <= t * M) by (unfold t; nra).
+    nra. }
+  set (D2 := (402 / 100 * t + 2 * u64) * M) in *.
+  assert (HD2 : D2 <= 21 / 10000 * M) by (unfold D2; apply Rmult_le_compat_r; lra).
+  assert (HDD : D * (4 * M + D) <= (1609 / 100 * t + 8005 / 1000 * u64) * (M * M)).
+  { apply Rle_trans with (D2 * (4 * M + D2)); [apply Rmult_le_compat; lra|].
+    apply Rle_trans with (D2 * (40021 / 10000 * M)); [apply Rmult_le_compat_l; [unfold D2; nra|lra]|].
+    unfold D2. replace ((402 / 100 * t + 2 * u64) * M * (40021 / 10000 * M)) with ((402 / 100 * t + 2 * u64) * (40021 / 10000) * (M * M)) by ring.
+    apply Rmult_le_compat_r; [lra|]. unfold t in *. nra. }
+  assert (Hspi : spi M eps <= (1611 / 100 * t + 1302 / 100 * u64) * (M * M)).
+  { unfold spi. fold D.
+    assert ((1 + u64) * (D * (4 * M + D)) <= (1 + u64) * ((1609 / 100 * t + 8005 / 1000 * u64) * (M * M))) by (apply Rmult_le_compat_l; lra).
+    assert ((1 + u64) * ((1609 / 100 * t + 8005 / 1000 * u64) * (M * M)) <= (1611 / 100 * t + 802 / 100 * u64) * (M * M)).
+    { replace ((1 + u64) * ((1609 / 100 * t + 8005 / 1000 * u64) * (M * M))) with ((1 + u64) * (1609 / 100 * t + 8005 / 1000 * u64) * (M * M)) by ring.
+      apply Rmult_le_compat_r; [lra|]. unfold t in *. nra. }
+    lra. }
+  assert (HX : (1 + u64) * spi M eps + 4 * u64 * N * (M * M) <= (2013 / 100 * t + 1304 / 100 * u64) * (M * M)).
+  { assert ((1 + u64) * spi M eps <= (1 + u64) * ((1611 / 100 * t + 1302 / 100 * u64) * (M * M))) by (apply Rmult_le_compat_l; lra).
+    assert ((1 + u64) * ((1611 / 100 * t + 1302 / 100 * u64) * (M * M)) <= (1613 / 100 * t + 1304 / 100 * u64) * (M * M)).
+    { replace ((1 + u64) * ((1611 / 100 * t + 1302 / 100 * u64) * (M * M))) with ((1 + u64) * (1611 / 100 * t + 1302 / 100 * u64) * (M * M)) by ring.
+      apply Rmult_le_compat_r; [lra|]. unfold t in *. nra. }
+    replace (4 * u64 * N * (M * M)) with (4 * t * (M * M)) by (unfold t; ring). lra. }
+  assert (HX0 : 0 <= (1 + u64) * spi M eps + 4 * u64 * N * (M * M)).
+  { pose proof (spi_nonneg M eps ltac:(lra) Heps0). assert (0 <= 4 * u64 * N * (M * M)) by (apply Rmult_le_pos; [nra|lra]). nra. }
+  assert (Hs : sstep M n <= (2014 / 100 * t + 1305 / 100 * u64) * (M * M)).
+  { unfold sstep. fold N eps. replace (2 * N * u64) with (2 * t) by (unfold t; ring).
+    apply Rle_trans with ((1 + 2 * t) * ((2013 / 100 * t + 1304 / 100 * u64) * (M * M))); [apply Rmult_le_compat_l; [unfold t; nra|lra]|].
+    replace ((1 + 2 * t) * ((2013 / 100 * t + 1304 / 100 * u64) * (M * M))) with ((1 + 2 * t) * (2013 / 100 * t + 1304 / 100 * u64) * (M * M)) by ring.
+    apply Rmult_le_compat_r; [lra|]. unfold t in *. nra. }
+  apply Rle_trans with (N * ((2014 / 100 * t + 1305 / 100 * u64) * (M * M))); [apply Rmult_le_compat_l; lra|].
+  replace (N * ((2014 / 100 * t + 1305 / 100 * u64) * (M * M))) with ((2014 / 100 * N + 1305 / 100) * N * u64 * (M * M)) by (unfold t; ring).
+  apply Rmult_le_compat_r; [lra|]. apply Rmult_le_compat_r; [lra|]. nra.
+Qed.
+
+Theorem fp_s_error_simple : forall (M : R) (xs : list R), bpow radix2 (-511) <= M ->
+  Forall (fun x => fmt x /\ Rabs x <= M) xs -> (Z.of_nat (length xs) <= 2 ^ 32)%Z ->
+  Rabs (f_s (fp_stats_add_list xs) - rssq xs) <= (21 * INR (length xs) + 14) * INR (length xs) * u64 * (M * M).
+Proof.
+  intros M xs HM Hall Hlen. pose proof (bpow_gt_0 radix2 (-511)).
+  eapply Rle_trans; [apply (fp_s_error M); [lra|exact Hall|lia]|]. apply sstep_simple; assumption.
+Qed.
+
+(* against the exact model's ssq_of *)
+Lemma Q2R_ssq_of : forall xs : list Q, xs <> [] -> Q2R (ssq_of xs) = rssq (map Q2R xs).
+Proof.
+  intros xs Hne. unfold ssq_of, rssq. rewrite Q2R_qsum, map_map, map_map. rewrite <- Q2R_mean_of by exact Hne.
+  f_equal. apply map_ext. intros a. rewrite Q2R_mult, Q2R_minus. reflexivity.
+Qed.
+
+Theorem fp_s_error_Q : forall (M : R) (xs : list Q), bpow radix2 (-511) <= M -> xs <> [] ->
+  Forall (fun x => fmt (Q2R x) /\ Rabs (Q2R x) <= M) xs -> (Z.of_nat (length xs) <= 2 ^ 32)%Z ->
+  Rabs (f_s (fp_stats_add_list (map Q2R xs)) - Q2R (ssq_of xs)) <=
+    (21 * INR (length xs) + 14) * INR (length xs) * u64 * (M * M).
+Proof.
+  intros M xs HM Hne Hall Hlen. rewrite Q2R_ssq_of by exact Hne.
+  replace (length xs) with (length (map Q2R xs)) by apply map_length.
+  apply fp_s_error_simple; try assumption.
+  - apply Forall_map. exact Hall.
+  - rewrite map_length. exact Hlen.
+Qed.
+
+(* ====================================================================================== *)
+(* 6. IEEE-754 binary64 operations (Flocq BinarySingleNaN) refine the model RN             *)
+(* ====================================================================================== *)
+(* jls_statistics_add on binary64 values, operation by operation as the C evaluates it
+   (no fused multiply-add).  Computable: vm_compute runs it (fp_stats_matches_C). *)
+Definition b64_plus (x y : b64) : b64 := @Bplus 53 1024 b64_prec_gt_0 b64_prec_lt_emax mode_NE x y.
+Definition b64_minus (x y : b64) : b64 := @Bminus 53 1024 b64_prec_gt_0 b64_prec_lt_emax mode_NE x y.
+
+Record bstats : Type := mkBstats { b_k : Z; b_mean : b64; b_s : b64 }.
+Definition b64_stats_reset : bstats := mkBstats 0 (B754_zero false) (B754_zero false).
+Definition b64_stats_add (st : bstats) (x : b64) : bstats :=
+  let k := (b_k st + 1)%Z in
+  let m_old := b_mean st in
+  let m_new := b64_plus m_old (b64_div (b64_minus x m_old) (b64_of_Z k)) in
+  mkBstats k m_new (b64_plus (b_s st) (b64_mul (b64_minus x m_old) (b64_minus x m_new))).
+Definition b64_stats_add_list (xs : list b64) : bstats := fold_left b64_stats_add xs b64_stats_reset.
+
+Lemma b64_plus_RN : forall x y : b64, is_finite x = true -> is_finite y = true ->
+  Rabs (B2R x + B2R y) <= bpow radix2 1023 ->
+  B2R (b64_plus x y) = RN (B2R x + B2R y) /\ is_finite (b64_plus x y) = true.
+Proof.
+  intros x y Fx Fy Hb. unfold b64_plus.
+  pose proof (Bplus_correct 53 1024 b64_prec_gt_0 b64_prec_lt_emax mode_NE x y Fx Fy) as H.
+  rewrite b64_fexp in H. cbn [round_mode] in H. fold (RN (B2R x + B2R y)) in H.
+  rewrite Rlt_bool_true in H.
+  - destruct H as [H1 [H2 _]]. split; assumption.
+  - apply Rle_lt_trans with (bpow radix2 1023); [apply RN_abs_le_bpow; [lia|exact Hb]|apply bpow_lt; reflexivity].
+Qed.
+
+Lemma b64_minus_RN : forall x y : b64, is_finite x = true -> is_finite y = true ->
+  Rabs (B2R x - B2R y) <= bpow radix2 1023 ->
+  B2R (b64_minus x y) = RN (B2R x - B2R y) /\ is_finite (b64_minus x y) = true.
+Proof.
+  intros x y Fx Fy Hb. unfold b64_minus.
+  pose proof (Bminus_correct 53 1024 b64_prec_gt_0 b64_prec_lt_emax mode_NE x y Fx Fy) as H.
+  rewrite b64_fexp in H. cbn [round_mode] in H. fold (RN (B2R x - B2R y)) in H.
+  rewrite Rlt_bool_true in H.
+  - destruct H as [H1 [H2 _]]. split; assumption.
+  - apply Rle_lt_trans with (bpow radix2 1023); [apply RN_abs_le_bpow; [lia|exact Hb]|apply bpow_lt; reflexivity].
+Qed.
+
+Lemma fmt_B2R : forall x : b64, fmt (B2R x).
+Proof. intros x. unfold fmt. rewrite <- b64_fexp. apply generic_format_B2R. Qed.
+
+(* one call: if the exact result of each of the six operations is below 2^1023 in magnitude, the
+   IEEE operations deliver exactly the values of the model fp_stats_add *)
+Lemma b64_stats_add_refines : forall (st : bstats) (x : b64),
+  is_finite (b_mean st) = true -> is_finite (b_s st) = true -> is_finite x = true ->
+  (0 <= b_k st)%Z -> (b_k st + 1 <= 2 ^ 53)%Z ->
+  let fst := mkFstats (Z.to_nat (b_k st)) (B2R (b_mean st)) (B2R (b_s st)) in
+  let mo := B2R (b_mean st) in
+  let K := INR (S (Z.to_nat (b_k st))) in
+  let mn := f_mean (fp_stats_add fst (B2R x)) in
+  Rabs (B2R x - mo) <= bpow radix2 1023 ->
+  Rabs (RN (B2R x - mo) / K) <= bpow radix2 1023 ->
+  Rabs (mo + RN (RN (B2R x - mo) / K)) <= bpow radix2 1023 ->
+  Rabs (B2R x - mn) <= bpow radix2 1023 ->
+  Rabs (RN (B2R x - mo) * RN (B2R x - mn)) <= bpow radix2 1023 ->
+  Rabs (B2R (b_s st) + RN (RN (B2R x - mo) * RN (B2R x - mn))) <= bpow radix2 1023 ->
+  let st' := b64_stats_add st x in
+  is_finite (b_mean st') = true /\ is_finite (b_s st') = true /\
+  b_k st' = (b_k st + 1)%Z /\
+  B2R (b_mean st') = f_mean (fp_stats_add fst (B2R x)) /\
+  B2R (b_s st') = f_s (fp_stats_add fst (B2R x)).
+Proof.
+  intros st x Fm Fs Fx Hk0 Hk fst mo K mn B1 B2 B3 B4 B5 B6 st'.
+  assert (HK : IZR (b_k st + 1) = K).
+  { unfold K. rewrite INR_IZR_INZ. f_equal. lia. }
+  assert (HKpos : 0 < K) by (unfold K; apply lt_0_INR; lia).
+  assert (HRK : RN K = K) by (unfold K; apply RN_INR; lia).
+  destruct (b64_of_Z_exact (b_k st + 1) ltac:(lia)) as [Vk Fk]. rewrite HK in Vk.
+  destruct (b64_minus_RN x (b_mean st) Fx Fm B1) as [Va Fa]. fold mo in Va.
+  destruct (b64_div_RN (b64_minus x (b_mean st)) (b64_of_Z (b_k st + 1))) as [Vq Fq].
+  { rewrite Vk. lra. } { exact Fa. } { rewrite Va, Vk. exact B2. }
+  rewrite Va, Vk in Vq.
+  destruct (b64_plus_RN (b_mean st) (b64_div (b64_minus x (b_mean st)) (b64_of_Z (b_k st + 1))) Fm Fq) as [Vm Fmn].
+  { rewrite Vq. fold mo. exact B3. }
+  rewrite Vq in Vm. fold mo in Vm.
+  assert (Emn : mn = RN (mo + RN (RN (B2R x - mo) / K))).
+  { unfold mn, fp_stats_add, fst. cbn [f_mean f_k]. fold mo K. rewrite HRK. reflexivity. }
+  rewrite <- Emn in Vm.
+  destruct (b64_minus_RN x (b64_plus (b_mean st) (b64_div (b64_minus x (b_mean st)) (b64_of_Z (b_k st + 1)))) Fx Fmn) as [Vb Fb].
+  { rewrite Vm. exact B4. }
+  rewrite Vm in Vb.
+  destruct (b64_mul_RN _ _ Fa Fb) as [Vp Fp].
+  { rewrite Va, Vb. exact B5. }
+  rewrite Va, Vb in Vp.
+  destruct (b64_plus_RN (b_s st) _ Fs Fp) as [Vs Fsn].
+  { rewrite Vp. exact B6. }
+  rewrite Vp in Vs.
+  unfold st', b64_stats_add. cbn [b_mean b_s b_k].
+  split; [exact Fmn|]. split; [exact Fsn|]. split; [reflexivity|].
+  split; [exact Vm|].
+  rewrite Vs. unfold fp_stats_add, fst. cbn [f_s f_mean f_k]. fold mo K. rewrite HRK. rewrite <- Emn. reflexivity.
+Qed.
+
+Lemma fp_mean_abs_bound : forall (M : R) (xs : list R), bpow radix2 (-1022) <= M ->
+  Forall (fun x => fmt x /\ Rabs x <= M) xs -> (Z.of_nat (length xs) <= 2 ^ 52)%Z ->
+  Rabs (f_mean (fp_stats_add_list xs)) <= 4 * M.
+Proof.
+  intros M xs HM Hall Hlen.
+  pose proof (bpow_gt_0 radix2 (-1022)) as Hb. pose proof u64_pos as Hu. pose proof u64_lt as Hu1.
+  destruct (fp_mean_invariant M xs ltac:(lra) Hall Hlen) as [m [_ [_ [Hm He]]]].
+  assert (Hn : INR (length xs) * cstep M <= 3 * M).
+  { pose proof (cstep_le M HM) as Hc. pose proof (cstep_nonneg M ltac:(lra)) as Hc0.
+    assert (Hnu : INR (length xs) * u64 <= / 2).
+    { rewrite INR_IZR_INZ, u64_val.
+      assert (IZR (Z.of_nat (length xs)) <= IZR (2 ^ 52)) by (apply IZR_le; lia).
+      apply Rmult_le_reg_r with (IZR (2 ^ 53)); [apply IZR_lt; reflexivity|].
+      rewrite Rmult_assoc, Rinv_l by (apply not_0_IZR; discriminate).
+      replace (IZR (2 ^ 53)) with (2 * IZR (2 ^ 52)) by (rewrite <- mult_IZR; reflexivity). lra. }
+    pose proof (pos_INR (length xs)) as Hn0.
+    assert (H5 : (2 + u64) * (2 + u64) <= 5) by nra.
+    assert (cstep M <= 5 * (u64 * M)).
+    { eapply Rle_trans; [exact Hc|].
+      replace ((2 + u64) * (2 + u64) * u64 * M) with ((2 + u64) * (2 + u64) * (u64 * M)) by ring.
+      apply Rmult_le_compat_r; [apply Rmult_le_pos; lra|exact H5]. }
+    assert (INR (length xs) * cstep M <= INR (length xs) * (5 * (u64 * M))) by (apply Rmult_le_compat_l; lra).
+    assert (INR (length xs) * u64 * M <= / 2 * M) by (apply Rmult_le_compat_r; lra).
+    lra. }
+  replace (f_mean (fp_stats_add_list xs)) with (m + (f_mean (fp_stats_add_list xs) - m)) by ring.
+  eapply Rle_trans; [apply Rabs_triang|]. lra.
+Qed.
+
+Lemma fp_s_abs_bound : forall (M : R) (xs : list R), bpow radix2 (-511) <= M ->
+  Forall (fun x => fmt x /\ Rabs x <= M) xs -> (Z.of_nat (length xs) <= 2 ^ 32)%Z ->
+  Rabs (f_s (fp_stats_add_list xs)) <= IZR (2 ^ 35) * (M * M).
+Proof.
+  intros M xs HM Hall Hlen.
+  pose proof (bpow_gt_0 radix2 (-511)) as Hb. pose proof u64_pos as Hu.
+  pose proof (fp_s_error_simple M xs HM Hall Hlen) as He. rewrite <- rss_eq_rssq in He.
+  assert (Hbx : Forall (fun x => Rabs x <= M) xs) by (eapply Forall_impl; [|exact Hall]; intros a [_ Ha]; exact Ha).
+  pose proof (rss_bound M xs ltac:(lra) Hbx) as Hs.
+  set (N := INR (length xs)) in *.
+  assert (HN : 0 <= N <= IZR (2 ^ 32)).
+  { split; [apply pos_INR|]. unfold N. rewrite INR_IZR_INZ. apply IZR_le. exact Hlen. }
+  assert (HMM : 0 <= M * M) by nra.
+  (* (21 N + 14) N u <= 35 * 2^64 * 2^-53 = 35 * 2^11 *)
+  assert (Hq : (21 * N + 14) * N * u64 <= IZR (35 * 2 ^ 11)).
+  { rewrite u64_val.
+    apply Rmult_le_reg_r with (IZR (2 ^ 53)); [apply IZR_lt; reflexivity|].
+    rewrite Rmult_assoc, Rinv_l by (apply not_0_IZR; discriminate). rewrite Rmult_1_r.
+    rewrite <- mult_IZR. replace (IZR (35 * 2 ^ 11 * 2 ^ 53)) with (35 * (IZR (2 ^ 32) * IZR (2 ^ 32))) by (rewrite <- !mult_IZR; reflexivity).
+    assert (1 <= IZR (2 ^ 32)) by (apply IZR_le; lia). nra. }
+  replace (f_s (fp_stats_add_list xs)) with (rss xs + (f_s (fp_stats_add_list xs) - rss xs)) by ring.
+  eapply Rle_trans; [apply Rabs_triang|].
+  assert (H1 : (21 * N + 14) * N * u64 * (M * M) <= IZR (35 * 2 ^ 11) * (M * M)) by (apply Rmult_le_compat_r; assumption).
+  assert (H2 : 4 * N * (M * M) <= 4 * IZR (2 ^ 32) * (M * M)) by (apply Rmult_le_compat_r; [assumption|lra]).
+  replace (IZR (2 ^ 35)) with (4 * IZR (2 ^ 32) + IZR (2 ^ 34)) by (rewrite <- mult_IZR, <- plus_IZR; reflexivity).
+  assert (IZR (35 * 2 ^ 11) <= IZR (2 ^ 34)) by (apply IZR_le; lia).
+  nra.
+Qed.
+
+(* the whole run: n <= 2^32 finite doubles of magnitude at most M, 2^-511 <= M <= 2^480: no
+   operation overflows and the IEEE computation IS the model fp_stats_add_list *)
+Theorem b64_stats_add_list_refines : forall (M : R) (xs : list b64),
+  bpow radix2 (-511) <= M <= bpow radix2 480 ->
+  Forall (fun x => is_finite x = true /\ Rabs (B2R x) <= M) xs -> (Z.of_nat (length xs) <= 2 ^ 32)%Z ->
+  let st := b64_stats_add_list xs in
+  is_finite (b_mean st) = true /\ is_finite (b_s st) = true /\ b_k st = Z.of_nat (length xs) /\
+  fp_stats_add_list (map B2R xs) = mkFstats (length xs) (B2R (b_mean st)) (B2R (b_s st)).
+Proof.
+  intros M xs [HM HM2]. induction xs as [|x xs IH] using rev_ind; intros Hall Hlen.
+  - cbn. repeat split; reflexivity.
+  - apply Forall_app in Hall. destruct Hall as [Hxs Hx]. inversion Hx as [|? ? [Fx Bx] _]. subst.
+    rewrite app_length in Hlen |- *. cbn [length] in Hlen |- *.
+    destruct (IH Hxs ltac:(lia)) as [Fm [Fs [Hk Hst]]]. clear IH.
+    cbv zeta. unfold b64_stats_add_list. rewrite fold_left_app. cbn [fold_left]. fold (b64_stats_add_list xs).
+    set (st := b64_stats_add_list xs) in *.
+    pose proof (bpow_gt_0 radix2 (-511)) as Hb. pose proof u64_pos as Hu. pose proof u64_lt as Hu1.
+    assert (HM1022 : bpow radix2 (-1022) <= M) by (eapply Rle_trans; [|exact HM]; apply bpow_le; lia).
+    assert (HallR : Forall (fun x => fmt x /\ Rabs x <= M) (map B2R xs)).
+    { apply Forall_map. eapply Forall_impl; [|exact Hxs]. intros a [_ Ha]. split; [apply fmt_B2R|exact Ha]. }
+    assert (HallR' : Forall (fun x => fmt x /\ Rabs x <= M) (map B2R (xs ++ [x]))).
+    { rewrite map_app. apply Forall_app. split; [exact HallR|]. constructor; [|constructor]. split; [apply fmt_B2R|exact Bx]. }
+    assert (Efst : mkFstats (Z.to_nat (b_k st)) (B2R (b_mean st)) (B2R (b_s st)) = fp_stats_add_list (map B2R xs)).
+    { rewrite Hst, Hk, Nat2Z.id. reflexivity. }
+    assert (Emo : B2R (b_mean st) = f_mean (fp_stats_add_list (map B2R xs))) by (rewrite Hst; reflexivity).
+    assert (Eso : B2R (b_s st) = f_s (fp_stats_add_list (map B2R xs))) by (rewrite Hst; reflexivity).
+    assert (Enew : fp_stats_add (fp_stats_add_list (map B2R xs)) (B2R x) = fp_stats_add_list (map B2R (xs ++ [x]))).
+    { rewrite map_app. cbn [map]. rewrite fp_add_list_snoc. reflexivity. }
+    (* magnitudes *)
+    assert (L0 : (Z.of_nat (length xs) + 1 <= 2 ^ 32)%Z) by (clear - Hlen; lia).
+    assert (L1 : (Z.of_nat (length (map B2R xs)) <= 2 ^ 52)%Z) by (rewrite map_length; clear - L0; lia).
+    assert (L1' : (Z.of_nat (length (map B2R (xs ++ [x]))) <= 2 ^ 52)%Z) by (rewrite map_length, app_length; cbn [length]; clear - L0; lia).
+    pose proof (fp_mean_abs_bound M _ HM1022 HallR L1) as Amo.
+    pose proof (fp_mean_abs_bound M _ HM1022 HallR' L1') as Amn.
+    destruct (fp_add_mean_bounded M (map B2R xs) (B2R x) HM1022 HallR (fmt_B2R x) Bx ltac:(rewrite map_length; clear - L0; lia)) as [C1 [C2 C3]].
+    rewrite map_length in C2, C3.
+    assert (L2 : (Z.of_nat (length (map B2R xs)) <= 2 ^ 32)%Z) by (rewrite map_length; clear - L0; lia).
+    pose proof (fp_s_abs_bound M _ HM HallR L2) as As.
+    assert (HMb : 10 * M <= bpow radix2 1023).
+    { apply Rle_trans with (bpow radix2 4 * bpow radix2 480); [|rewrite <- bpow_plus; apply bpow_le; lia].
+      rewrite (bpow_IZR 4) by lia. change (IZR (2 ^ 4)) with 16. nra. }
+    assert (HMM : M * M <= bpow radix2 960).
+    { change 960%Z with (480 + 480)%Z. rewrite bpow_plus. apply Rmult_le_compat; lra. }
+    assert (HMM0 : 0 <= M * M) by nra.
+    destruct (b64_stats_add_refines st x Fm Fs Fx ltac:(clear - Hk; lia) ltac:(clear - Hk L0; lia)) as [R1 [R2 [R3 [R4 R5]]]].
+    + rewrite Emo. lra.
+    + rewrite Emo, Hk, Nat2Z.id. lra.
+    + rewrite Emo, Hk, Nat2Z.id. lra.
+    + rewrite Efst, Enew. eapply Rle_trans; [apply Rabs_triang|]. rewrite Rabs_Ropp. lra.
+    + rewrite Efst, Enew, Emo.
+      (* |RN (x - mo)| <= 6 M, |RN (x - mn)| <= 6 M *)
+      assert (Ha : Rabs (RN (B2R x - f_mean (fp_stats_add_list (map B2R xs)))) <= 6 * M).
+      { destruct (RN_minus_rel (B2R x) _ (fmt_B2R x) (fp_add_list_fmt (map B2R xs))) as [d [D E]]. rewrite E, Rabs_mult.
+        assert (Rabs (B2R x - f_mean (fp_stats_add_list (map B2R xs))) <= 5 * M) by (eapply Rle_trans; [apply Rabs_triang|]; rewrite Rabs_Ropp; lra).
+        pose proof (Rabs_1p d D).
+        assert (Rabs (B2R x - f_mean (fp_stats_add_list (map B2R xs))) * Rabs (1 + d) <= 5 * M * (1 + u64)) by (apply Rmult_le_compat; try apply Rabs_pos; assumption).
+        nra. }
+      assert (Hbn : Rabs (RN (B2R x - f_mean (fp_stats_add_list (map B2R (xs ++ [x]))))) <= 6 * M).
+      { destruct (RN_minus_rel (B2R x) _ (fmt_B2R x) (fp_add_list_fmt (map B2R (xs ++ [x])))) as [d [D E]]. rewrite E, Rabs_mult.
+        assert (Rabs (B2R x - f_mean (fp_stats_add_list (map B2R (xs ++ [x])))) <= 5 * M) by (eapply Rle_trans; [apply Rabs_triang|]; rewrite Rabs_Ropp; lra).
+        pose proof (Rabs_1p d D).
+        assert (Rabs (B2R x - f_mean (fp_stats_add_list (map B2R (xs ++ [x])))) * Rabs (1 + d) <= 5 * M * (1 + u64)) by (apply Rmult_le_compat; try apply Rabs_pos; assumption).
+        nra. }
+      rewrite Rabs_mult.
+      apply Rle_trans with (6 * M * (6 * M)); [apply Rmult_le_compat; try apply Rabs_pos; assumption|].
+      apply Rle_trans with (bpow radix2 6 * bpow radix2 960); [|rewrite <- bpow_plus; apply bpow_le; lia].
+      rewrite (bpow_IZR 6) by lia. change (IZR (2 ^ 6)) with 64. nra.
+    + rewrite Efst, Enew, Emo, Eso.
+      assert (Ha : Rabs (RN (B2R x - f_mean (fp_stats_add_list (map B2R xs)))) <= 6 * M).
+      { destruct (RN_minus_rel (B2R x) _ (fmt_B2R x) (fp_add_list_fmt (map B2R xs))) as [d [D E]]. rewrite E, Rabs_mult.
+        assert (Rabs (B2R x - f_mean (fp_stats_add_list (map B2R xs))) <= 5 * M) by (eapply Rle_trans; [apply Rabs_triang|]; rewrite Rabs_Ropp; lra).
+        pose proof (Rabs_1p d D).
+        assert (Rabs (B2R x - f_mean (fp_stats_add_list (map B2R xs))) * Rabs (1 + d) <= 5 * M * (1 + u64)) by (apply Rmult_le_compat; try apply Rabs_pos; assumption).
+        nra. }
+      assert (Hbn : Rabs (RN (B2R x - f_mean (fp_stats_add_list (map B2R (xs ++ [x]))))) <= 6 * M).
+      { destruct (RN_minus_rel (B2R x) _ (fmt_B2R x) (fp_add_list_fmt (map B2R (xs ++ [x])))) as [d [D E]]. rewrite E, Rabs_mult.
+        assert (Rabs (B2R x - f_mean (fp_stats_add_list (map B2R (xs ++ [x])))) <= 5 * M) by (eapply Rle_trans; [apply Rabs_triang|]; rewrite Rabs_Ropp; lra).
+        pose proof (Rabs_1p d D).
+        assert (Rabs (B2R x - f_mean (fp_stats_add_list (map B2R (xs ++ [x])))) * Rabs (1 + d) <= 5 * M * (1 + u64)) by (apply Rmult_le_compat; try apply Rabs_pos; assumption).
+        nra. }
+      set (a := RN (B2R x - f_mean (fp_stats_add_list (map B2R xs)))) in *.
+      set (b := RN (B2R x - f_mean (fp_stats_add_list (map B2R (xs ++ [x]))))) in *.
+      assert (Hab : Rabs (a * b) <= 36 * (M * M)).
+      { rewrite Rabs_mult. apply Rle_trans with (6 * M * (6 * M)); [apply Rmult_le_compat; try apply Rabs_pos; assumption|lra]. }
+      destruct (RN_gen (a * b)) as [d [h [D [H E]]]].
+      assert (Heta : eta64 <= u64 * (M * M)).
+      { unfold eta64, u64. change (-1075)%Z with (-53 + (-511 + -511))%Z. rewrite !bpow_plus.
+        apply Rmult_le_compat_l; [apply bpow_ge_0|]. apply Rmult_le_compat; try apply bpow_ge_0; lra. }
+      assert (Hp : Rabs (RN (a * b)) <= 37 * (M * M)).
+      { rewrite E. eapply Rle_trans; [apply Rabs_triang|]. rewrite Rabs_mult. pose proof (Rabs_1p d D).
+        assert (Rabs (a * b) * Rabs (1 + d) <= 36 * (M * M) * (1 + u64)) by (apply Rmult_le_compat; try apply Rabs_pos; assumption).
+        nra. }
+      eapply Rle_trans; [apply Rabs_triang|].
+      apply Rle_trans with (IZR (2 ^ 36) * (M * M)).
+      { replace (IZR (2 ^ 36)) with (IZR (2 ^ 35) + IZR (2 ^ 35)) by (rewrite <- plus_IZR; reflexivity).
+        assert (37 <= IZR (2 ^ 35)) by (apply IZR_le; lia). nra. }
+      apply Rle_trans with (bpow radix2 36 * bpow radix2 960); [|rewrite <- bpow_plus; apply bpow_le; lia].
+      rewrite (bpow_IZR 36) by lia. apply Rmult_le_compat_l; [apply IZR_le; lia|exact HMM].
+    + split; [exact R1|]. split; [exact R2|]. split; [rewrite R3, Hk; clear; lia|].
+      rewrite <- Enew, <- Efst. rewrite R4, R5.
+      replace (length xs + 1)%nat with (S (Z.to_nat (b_k st))) by (rewrite Hk, Nat2Z.id; lia).
+      reflexivity.
+Qed.
+
+(* ---- the bounds of sections 2 and 5 for the IEEE computation itself ---- *)
+Theorem b64_stats_add_error : forall (M : R) (xs : list b64),
+  bpow radix2 (-511) <= M <= bpow radix2 480 -> xs <> [] ->
+  Forall (fun x => is_finite x = true /\ Rabs (B2R x) <= M) xs -> (Z.of_nat (length xs) <= 2 ^ 32)%Z ->
+  let st := b64_stats_add_list xs in
+  is_finite (b_mean st) = true /\ is_finite (b_s st) = true /\ b_k st = Z.of_nat (length xs) /\
+  Rabs (B2R (b_mean st) - rmean (map B2R xs)) <= 5 * INR (length xs) * u64 * M /\
+  Rabs (B2R (b_s st) - rssq (map B2R xs)) <= (21 * INR (length xs) + 14) * INR (length xs) * u64 * (M * M).
+Proof.
+  intros M xs HM Hne Hall Hlen st.
+  destruct (b64_stats_add_list_refines M xs HM Hall Hlen) as [Fm [Fs [Hk Hst]]]. fold st in Fm, Fs, Hk, Hst.
+  split; [exact Fm|]. split; [exact Fs|]. split; [exact Hk|].
+  assert (HallR : Forall (fun x => fmt x /\ Rabs x <= M) (map B2R xs)).
+  { apply Forall_map. eapply Forall_impl; [|exact Hall]. intros a [_ Ha]. split; [apply fmt_B2R|exact Ha]. }
+  assert (Em : B2R (b_mean st) = f_mean (fp_stats_add_list (map B2R xs))) by (rewrite Hst; reflexivity).
+  assert (Es : B2R (b_s st) = f_s (fp_stats_add_list (map B2R xs))) by (rewrite Hst; reflexivity).
+  rewrite Em, Es. replace (length xs) with (length (map B2R xs)) by apply map_length.
+  destruct HM as [HM1 HM2]. split.
+  - apply fp_mean_error_5nuM; try assumption.
+    + eapply Rle_trans; [|exact HM1]. apply bpow_le. lia.
+    + destruct xs; [contradiction|discriminate].
+    + rewrite map_length. lia.
+  - apply fp_s_error_simple; try assumption. rewrite map_length. exact Hlen.
+Qed.
+
+(* the binary64 model returns, bit for bit, what the real C printed (build/plain/jlsrun stats,
+   "R 0 A 0 0 n P 0": reset, n calls of jls_statistics_add, print) for two sequences;
+   values as (mantissa, exponent) *)
+Definition b64_mk (p : Z * Z) : b64 :=
+  binary_normalize 53 1024 b64_prec_gt_0 b64_prec_lt_emax mode_NE (fst p) (snd p) false.
+
+Lemma fp_stats_matches_C :
+  (let st := b64_stats_add_list (map b64_mk [(3, -1); (-5, -2); (7, 0); (7, 0); (1, -10)]%Z) in
+   Beqb (b_mean st) (b64_mk (6418069273654067, -51)%Z) && Beqb (b_s st) (b64_mk (8612350992685466, -47)%Z)) = true /\
+  (let st := b64_stats_add_list (map b64_mk [(4503599627370497, -12); (4503599627370499, -12); (4503599627370498, -12); (-1, -20); (1, 30); (3, 0)]%Z) in
+   Beqb (b_mean st) (b64_mk (4505065642878295, -13)%Z) && Beqb (b_s st) (b64_mk (6751004973671767, 28)%Z)) = true.
+Proof. split; vm_compute; reflexivity. Qed.
+
+Lemma b64_mk_exact : forall m e : Z, (Z.abs m <= 2 ^ 53)%Z -> (-1074 <= e <= 900)%Z ->
+  is_finite (b64_mk (m, e)) = true /\ B2R (b64_mk (m, e)) = IZR m * bpow radix2 e.
+Proof.
+  intros m e Hm He. unfold b64_mk. cbn [fst snd].
+  pose proof (binary_normalize_correct 53 1024 b64_prec_gt_0 b64_prec_lt_emax mode_NE m e false) as H.
+  cbv zeta in H. rewrite b64_fexp in H. cbn [round_mode] in H.
+  set (x := F2R (Float radix2 m e)) in *. fold (RN x) in H.
+  assert (Hx : x = IZR m * bpow radix2 e) by reflexivity.
+  assert (Fx : fmt x) by (rewrite Hx; apply format_IZR_bpow; [exact Hm|lia]).
+  rewrite (RN_id x Fx) in H.
+  rewrite Rlt_bool_true in H.
+  - destruct H as [H1 [H2 _]]. split; [exact H2|]. rewrite H1. exact Hx.
+  - rewrite Hx, Rabs_mult, (Rabs_pos_eq (bpow _ _)) by apply bpow_ge_0.
+    apply Rle_lt_trans with (bpow radix2 53 * bpow radix2 900).
+    + apply Rmult_le_compat; [apply Rabs_pos|apply bpow_ge_0| |apply bpow_le; lia].
+      rewrite (bpow_IZR 53) by lia. apply IZR_abs_le. exact Hm.
+    + rewrite <- bpow_plus. apply bpow_lt. reflexivity.
+Qed.
+
+Lemma b64_stats_example_hyps :
+  let xs := map b64_mk [(3, -1); (-5, -2); (7, 0); (7, 0); (1, -10)]%Z in
+  bpow radix2 (-511) <= 7 <= bpow radix2 480 /\ xs <> [] /\
+  Forall (fun x => is_finite x = true /\ Rabs (B2R x) <= 7) xs /\ (Z.of_nat (length xs) <= 2 ^ 32)%Z.
+Proof.
+  cbv zeta. split; [split|].
+  - apply Rle_trans with (bpow radix2 0); [apply bpow_le; lia|cbn; lra].
+  - apply Rle_trans with (bpow radix2 3); [cbn; lra|apply bpow_le; lia].
+  - split; [discriminate|]. split; [|cbn; lia].
+    cbn [map].
+    repeat (apply Forall_cons; [match goal with |- is_finite (b64_mk (?m, ?e)) = true /\ _ =>
+      destruct (b64_mk_exact m e ltac:(lia) ltac:(lia)) as [F V]; split; [exact F|rewrite V; cbn; apply Rabs_le; lra] end|]).
+    apply Forall_nil.
+Qed.
+
+(* ====================================================================================== *)
+(* 7. the two-pass sum of squared deviations                                               *)
+(*    for (...) { m = x[i] - v_mean; v_var += m * m; }                                     *)
+(*    (jls_statistics_compute_f64: s = v_var; jls_core_fsr_summary1: v_var /= count)       *)
+(* ====================================================================================== *)
+(* second pass around any double c (the C uses c = the mean computed by the first pass) *)
+Definition fp_ssq_about (c : R) (xs : list R) : R :=
+  fold_left (fun acc x => RN (acc + RN (RN (x - c) * RN (x - c)))) xs 0.
+Definition fp_ssq2 (xs : list R) : R := fp_ssq_about (fp_mean2 xs) xs.
+(* population variance of an entry: v_var /= count *)
+Definition fp_var1 (xs : list R) : R := RN (fp_ssq2 xs / RN (INR (length xs))).
+
+Definition rsq_about (c : R) (xs : list R) : R := rsum (map (fun x => (x - c) * (x - c)) xs).
+
+Lemma fp_ssq_about_snoc : forall c xs x,
+  fp_ssq_about c (xs ++ [x]) = RN (fp_ssq_about c xs + RN (RN (x - c) * RN (x - c))).
+Proof. intros c xs x. unfold fp_ssq_about. rewrite fold_left_app. reflexivity. Qed.
+
+Lemma fp_ssq_about_fmt : forall c xs, fmt (fp_ssq_about c xs).
+Proof. intros c xs. induction xs as [|x xs IH] using rev_ind; [apply fmt_0|]. rewrite fp_ssq_about_snoc. apply fmt_RN. Qed.
+
+Lemma rsq_about_snoc : forall c xs x, rsq_about c (xs ++ [x]) = rsq_about c xs + (x - c) * (x - c).
+Proof. intros c xs x. unfold rsq_about. rewrite map_app, rsum_app. cbn. lra. Qed.
+
+Lemma rsq_about_nonneg : forall c xs, 0 <= rsq_about c xs.
+Proof.
+  intros c xs. induction xs as [|x xs IH] using rev_ind; [unfold rsq_about; cbn; lra|].
+  rewrite rsq_about_snoc. pose proof (Rle_0_sqr (x - c)) as H. unfold Rsqr in H. lra.
+Qed.
+
+Lemma pow1u_ge1 : forall k : nat, 1 <= (1 + u64) ^ k.
+Proof. intros k. pose proof (pow1u_ge k). pose proof (pos_INR k). pose proof u64_pos. nra. Qed.
+
+Lemma pow1u_mono : forall j k : nat, (j <= k)%nat -> (1 + u64) ^ j <= (1 + u64) ^ k.
+Proof. intros j k H. apply Rle_pow; [pose proof u64_pos; lra|exact H]. Qed.
+
+(* sum of non-negative terms: the error is RELATIVE to the exact sum (no cancellation) *)
+Theorem fp_ssq_about_error : forall (c : R) (xs : list R), fmt c -> Forall fmt xs ->
+  Rabs (fp_ssq_about c xs - rsq_about c xs) <=
+    ((1 + u64) ^ (length xs + 3) - 1) * rsq_about c xs + INR (length xs) * (1 + u64) ^ length xs * eta64.
+Proof.
+  intros c xs Fc. induction xs as [|x xs IH] using rev_ind; intros Hall.
+  - unfold fp_ssq_about, rsq_about. cbn [fold_left map rsum fold_right length INR]. rewrite Rminus_0_r, Rabs_R0. lra.
+  - apply Forall_app in Hall. destruct Hall as [Hxs Hx]. inversion Hx as [|? ? Fx _]. subst.
+    specialize (IH Hxs).
+    rewrite fp_ssq_about_snoc, rsq_about_snoc, app_length. cbn [length].
+    replace (length xs + 1)%nat with (S (length xs)) by lia.
+    pose proof u64_pos as Hu. pose proof eta64_pos as Heta.
+    set (k := length xs) in *. set (S0 := rsq_about c xs) in *. set (sh := fp_ssq_about c xs) in *.
+    assert (HS0 : 0 <= S0) by apply rsq_about_nonneg.
+    set (T := (x - c) * (x - c)). assert (HT : 0 <= T) by (pose proof (Rle_0_sqr (x - c)) as H; unfold Rsqr in H; exact H).
+    destruct (RN_minus_rel x c Fx Fc) as [d1 [D1 E1]].
+    destruct (RN_gen (RN (x - c) * RN (x - c))) as [d2 [h2 [D2 [H2 E2]]]].
+    destruct (RN_plus_rel sh (RN (RN (x - c) * RN (x - c))) (fp_ssq_about_fmt c xs) (fmt_RN _)) as [d3 [D3 E3]].
+    rewrite E3, E2, E1.
+    (* t = T (1 + th) + h2 with |th| <= (1+u)^3 - 1 *)
+    set (th := (1 + d1) * (1 + d1) * (1 + d2) - 1).
+    assert (Hth : Rabs th <= (1 + u64) ^ 3 - 1).
+    { unfold th. apply Rabs_le_inv in D1. apply Rabs_le_inv in D2. pose proof u64_lt as Hu1.
+      assert (0 <= 1 + d1 <= 1 + u64) by lra. assert (0 <= 1 + d2 <= 1 + u64) by lra.
+      assert (1 - u64 <= 1 + d1) by lra. assert (1 - u64 <= 1 + d2) by lra.
+      assert (U1 : (1 + d1) * (1 + d1) <= (1 + u64) * (1 + u64)) by (apply Rmult_le_compat; lra).
+      assert (U2 : (1 + d1) * (1 + d1) * (1 + d2) <= (1 + u64) * (1 + u64) * (1 + u64)).
+      { apply Rmult_le_compat; try lra. apply Rmult_le_pos; lra. }
+      assert (L1 : (1 - u64) * (1 - u64) <= (1 + d1) * (1 + d1)) by (pose proof u64_lt; apply Rmult_le_compat; lra).
+      assert (L2 : (1 - u64) * (1 - u64) * (1 - u64) <= (1 + d1) * (1 + d1) * (1 + d2)).
+      { pose proof u64_lt. apply Rmult_le_compat; try lra. apply Rmult_le_pos; lra. }
+      cbn [pow]. rewrite Rmult_1_r. apply Rabs_le. pose proof u64_lt. nra. }
+    replace ((sh + ((x - c) * (1 + d1) * ((x - c) * (1 + d1)) * (1 + d2) + h2)) * (1 + d3) - (S0 + (x - c) * (x - c)))
+      with (((sh - S0) + (T * th + h2)) * (1 + d3) + d3 * (S0 + T)) by (unfold T, th; ring).
+    eapply Rle_trans; [apply Rabs_triang|]. rewrite !Rabs_mult.
+    pose proof (Rabs_1p d3 D3) as H1d.
+    assert (Hin : Rabs (sh - S0 + (T * th + h2)) <=
+                  ((1 + u64) ^ (k + 3) - 1) * S0 + INR k * (1 + u64) ^ k * eta64 + (T * ((1 + u64) ^ 3 - 1) + eta64)).
+    { eapply Rle_trans; [apply Rabs_triang|]. apply Rplus_le_compat; [exact IH|].
+      eapply Rle_trans; [apply Rabs_triang|]. rewrite Rabs_mult, (Rabs_pos_eq T) by exact HT.
+      apply Rplus_le_compat; [apply Rmult_le_compat_l; assumption|exact H2]. }
+    assert (H1 : Rabs (sh - S0 + (T * th + h2)) * Rabs (1 + d3) <=
+                 (((1 + u64) ^ (k + 3) - 1) * S0 + INR k * (1 + u64) ^ k * eta64 + (T * ((1 + u64) ^ 3 - 1) + eta64)) * (1 + u64)).
+    { apply Rmult_le_compat; try apply Rabs_pos; assumption. }
+    assert (H2' : Rabs d3 * Rabs (S0 + T) <= u64 * (S0 + T)).
+    { rewrite (Rabs_pos_eq (S0 + T)) by lra. apply Rmult_le_compat_r; lra. }
+    (* closing: the three groups of terms *)
+    replace (S (length xs) + 3)%nat with (S (k + 3)) by (unfold k; lia).
+    cbn [pow]. rewrite S_INR.
+    set (P := (1 + u64) ^ (k + 3)) in *. set (Pk := (1 + u64) ^ k) in *.
+    assert (HP : (1 + u64) ^ 3 <= P) by (unfold P; apply pow1u_mono; lia).
+    assert (HPk : 1 <= Pk) by apply pow1u_ge1.
+    assert (Hk0 : 0 <= INR k) by apply pos_INR.
+    assert (G1 : (P - 1) * S0 * (1 + u64) + u64 * S0 = ((1 + u64) * P - 1) * S0) by ring.
+    assert (G2 : T * ((1 + u64) ^ 3 - 1) * (1 + u64) + u64 * T <= ((1 + u64) * P - 1) * T).
+    { replace (T * ((1 + u64) ^ 3 - 1) * (1 + u64) + u64 * T) with (T * ((1 + u64) * (1 + u64) ^ 3 - 1)) by ring.
+      rewrite (Rmult_comm _ T). apply Rmult_le_compat_l; [exact HT|]. nra. }
+    assert (G3 : (INR k * Pk * eta64 + eta64) * (1 + u64) <= (INR k + 1) * ((1 + u64) * Pk) * eta64).
+    { replace ((INR k * Pk * eta64 + eta64) * (1 + u64)) with ((INR k * ((1 + u64) * Pk) + (1 + u64)) * eta64) by ring.
+      replace ((INR k + 1) * ((1 + u64) * Pk) * eta64) with ((INR k * ((1 + u64) * Pk) + (1 + u64) * Pk) * eta64) by ring.
+      apply Rmult_le_compat_r; [lra|]. nra. }
+    apply Rle_trans with (((P - 1) * S0 + INR k * Pk * eta64 + (T * ((1 + u64) ^ 3 - 1) + eta64)) * (1 + u64) + u64 * (S0 + T)); [lra|].
+    replace (((P - 1) * S0 + INR k * Pk * eta64 + (T * ((1 + u64) ^ 3 - 1) + eta64)) * (1 + u64) + u64 * (S0 + T))
+      with (((P - 1) * S0 * (1 + u64) + u64 * S0) + (T * ((1 + u64) ^ 3 - 1) * (1 + u64) + u64 * T) + (INR k * Pk * eta64 + eta64) * (1 + u64)) by ring.
+    rewrite G1.
+    replace (((1 + u64) * P - 1) * (S0 + T)) with (((1 + u64) * P - 1) * S0 + ((1 + u64) * P - 1) * T) by ring.
+    lra.
 Qed.
